@@ -512,6 +512,7 @@ class Context:
             rec['verdict'] = v
             if v == 'sat':
                 rec['model'] = self._input_values(self._best_model(nf) or {})
+                rec['quality'] = self.last_model_quality
         self.claims.append(rec)
         return rec['verdict'] == 'unsat'
 
@@ -555,9 +556,11 @@ class Context:
             tries.append(self.robust + self._nice())
             tries.append(list(self.robust))
         tries.append(self._nice())
+        self.last_model_quality = 0
         for extra in tries:
             v, m = self.full_model(And.make([bad] + extra), self.t_branch * 2)
             if v == 'sat':
+                self.last_model_quality = 1
                 return m
         v, m = self.full_model(bad)
         return m if v == 'sat' else None
@@ -586,6 +589,7 @@ class Context:
             rec = {'kind': kind, 'verdict': v, 'what': what}
             if v == 'sat':
                 rec['model'] = self._input_values(self._best_model(bad) or {})
+                rec['quality'] = self.last_model_quality
             self.obligations.append(rec)
             vg, _ = self.check(good)
             if vg == 'unsat':
